@@ -351,12 +351,12 @@ def explore(tier, seed):
     # (a) schedules
     if tier == "quick":
         plans = [("semgrep-detected", "line", 1), ("import-scheduling", "line", 1), ("detector-less", "coarse", 1), ("sonar", "line", 1),
-                 ("regex-plugin", "line", 1), ("xml-plugin", "line", 1)]
+                 ("regex-plugin", "line", 1), ("xml-plugin", "line", 1), ("defectdojo-pages", "line", 1)]
     else:
         # sizes measured on this box (executions): line<=1 ~1.5-4.3k per driver, coarse<=2 ~5-6k per 3-task driver
         plans = [("semgrep-detected", "line", 1), ("import-scheduling", "line", 1), ("detector-less", "coarse", 1), ("sonar", "line", 1),
                  ("semgrep-detected", "coarse", 2), ("import-scheduling", "coarse", 2), ("sonar", "coarse", 2), ("detector-less", "coarse", 2),
-                 ("four-tasks", "coarse", 1), ("regex-plugin", "line", 1), ("xml-plugin", "line", 1), ("regex-plugin", "coarse", 2), ("xml-plugin", "coarse", 2)]
+                 ("four-tasks", "coarse", 1), ("regex-plugin", "line", 1), ("xml-plugin", "line", 1), ("regex-plugin", "coarse", 2), ("xml-plugin", "coarse", 2), ("defectdojo-pages", "line", 1)]
     sched_cov = []
     total_exec = 0
     for driver, gran, bound in plans:
